@@ -653,6 +653,19 @@ theorem mania_provided_kept (c : ManiaCfg) (b : ManiaB R) (hfit : ManiaFits c b)
   rw [maniaGenRaw_misses, hmis, h]
   rfl
 
+/-- What the nested-search arm does with provided results that do **not** jointly fit: each one is
+clamped to `judgements − misses` individually and otherwise left alone (`n50`: once a candidate
+was accepted). -/
+theorem mania_search_provided_clamped (c : ManiaCfg) (b : ManiaB R) (hs : ManiaSearchArm b) :
+    let s := (maniaGenRaw c b).state
+    (∀ n, b.n320 = some n → s.n320 = min n (maniaJ c - s.misses)) ∧
+    (∀ n, b.n300 = some n → s.n300 = min n (maniaJ c - s.misses)) ∧
+    (∀ n, b.n200 = some n → s.n200 = min n (maniaJ c - s.misses)) ∧
+    (∀ n, b.n100 = some n → s.n100 = min n (maniaJ c - s.misses)) ∧
+    ((maniaGenRaw c b).accepted = true → ∀ n, b.n50 = some n → s.n50 = min n (maniaJ c - s.misses)) := by
+  simp only [maniaGenRaw_misses]
+  exact maniaGenRaw_search_clamped c b hs
+
 /-- Outside the nested search the `accepted` bit is `true` (no search runs). -/
 theorem mania_accepted_outside_search (c : ManiaCfg) (b : ManiaB R) (hns : ¬ ManiaSearchArm b) :
     (maniaGenRaw c b).accepted = true := maniaGenRaw_accepted_of_not_search c b hns
